@@ -9,9 +9,11 @@ the least-fixpoint semantics of `Spec/BoolSys.lean` that C01 proves the Check en
 What is proved (all schedules, unbounded):
   * `lu_nodup`                 no user is returned twice;
   * `lu_filter_partial`        every returned user (and every key in an `excludedUsers` list on the way)
-                               was written by a leaf of the expansion; for the FGA rules the leaves write
-                               the self userset `object#relation` when type *and relation* match the filter,
-                               and directly assigned objects / wildcards whose *type* matches (`luRule_sends`);
+                               was written by a leaf of the expansion (abstract layer);
+  * `lu_filter`                **full** filter statement for the FGA rules (`LU_Filter_Full`): type and relation
+                               of every returned user equal the filter — the leaves write the self userset
+                               `object#relation` when type and relation match, and directly assigned objects /
+                               wildcards of the filter type only for a filter without relation (LU-D fixed);
   * `lu_sound_partial`, `lu_complete_partial`   wildcard-free stage (`Stage1`): an answer without error and
                                without ghost note returns `u` only if `u` definitely holds the relation and
                                returns every `u` that possibly holds it — with any coherent interpretation,
@@ -28,8 +30,10 @@ What is proved (all schedules, unbounded):
                                exclusion's own path) never appears for a system without negation through
                                recursion (`answer_no_sub_cut`, `answer_no_sub_cut_fga`).
 The ghost notes are the steps of the Go code that the proof cannot justify; each of them is a confirmed
-defect of the unchanged code (`LU_Sound_Full`, `LU_Complete_Full`, `LU_Filter_Full` are refuted below by
-concrete systems, and reproduced on the real code by the crafted cases of harness/c06).
+defect of the code (`LU_Sound_Full`, `LU_Complete_Full`, `LU_Deterministic_Full` are refuted below by concrete
+systems, and reproduced on the real code by the crafted cases of harness/c06).  Findings LU-A (exclusion
+re-issued a base entry without relationship) and LU-D (filter relation ignored) are fixed: their notes are
+gone from the model, `sysA_answer` / `excl_keeps_base_status` / `lu_filter` record the repaired behaviour.
 -/
 import OpenFGAVerif.Proofs.ListUsersStage1
 import OpenFGAVerif.Proofs.ListUsersStage2
@@ -55,6 +59,10 @@ theorem lu_filter_partial {N K : Type} [DecidableEq N] [DecidableEq K] (sys : LS
     (hsys : ∀ n, SendsOnly P (sys.rule n)) (root : N) (a : Answer K) (h : ListUsersRel sys limit root a) :
     ∀ k ∈ a.users, P k :=
   ListUsers.lu_filter sys limit P hsys root a h
+
+/-- **lu_filter at full strength**, every schedule, every world: type and relation of every returned user
+equal the user filter (`hkey`: the string fact that an `object#relation` key splits back into its parts) -/
+theorem lu_filter : LU_Filter_Full := lu_filter_full
 
 /-- **soundness**, wildcard-free stage, every schedule: a returned subject definitely holds the relation -/
 theorem lu_sound_partial {N K : Type} [DecidableEq N] [DecidableEq K] (sys : LSys N K) (limit : Nat) (u : K) (cw : Bool)
@@ -159,8 +167,9 @@ theorem occursNeg_diff_nodes {N : Type} {m a b : N} {d1 d2 : Bool}
 /-- wildcard key 0; `isWild k ↔ k = 0` -/
 def isW (k : Nat) : Bool := k == 0
 
-/-- LU-A.  `0 := 5 but not 6`, `5 := 1 but not 2`, `6 := 3 but not 4`, user 7 directly in 1, 2, 3, 4
-(`v: (a but not b) but not (c but not d)` with x in a, b, c, d). -/
+/-- The shape of the fixed finding LU-A, kept as a regression example.  `0 := 5 but not 6`,
+`5 := 1 but not 2`, `6 := 3 but not 4`, user 7 directly in 1, 2, 3, 4 (`v: (a but not b) but not (c but not d)`
+with x in a, b, c, d). -/
 def sysA : LSys Nat Nat where
   rule := fun n => match n with
     | 0 => .diff (.node 5) (.node 6)
@@ -171,27 +180,45 @@ def sysA : LSys Nat Nat where
   wk := 0
   isWild := isW
 
-/-- the Check-side system of `sysA` for subject 7 -/
-def specA : Sys Nat where
+/-- LU-A is fixed: the exclusion keeps the base status of a user whose subtracted entry is
+`NoRelationship`; user 7 is not returned and no note is left -/
+theorem sysA_answer (lw : Bool) :
+    (listUsersF sysA 25 { lastWins := lw } 10 0).users = [] ∧
+    (listUsersF sysA 25 { lastWins := lw } 10 0).errs = [] ∧
+    (listUsersF sysA 25 { lastWins := lw } 10 0).notes = [] := by
+  cases lw <;> decide
+
+/-- LU-B.  `0 := 5 but not 3`, `5 := 1 but not 2`, `1 = {*}`, `2 = {7}`, `3 = {8}`
+(`a: [user:*]`, `v: (a but not b) but not c`, `b@x`, `c@y`). -/
+def sysB : LSys Nat Nat where
   rule := fun n => match n with
-    | 0 => .diff (.node true 5) (.node true 6)
+    | 0 => .diff (.node 5) (.node 3)
+    | 5 => .diff (.node 1) (.node 2)
+    | 1 => .send [0] | 2 => .send [7] | 3 => .send [8]
+    | _ => .send []
+  wk := 0
+  isWild := isW
+
+/-- the Check-side system of `sysB` for the concrete subject 7 (a wildcard tuple stands for it) -/
+def specB : Sys Nat where
+  rule := fun n => match n with
+    | 0 => .diff (.node true 5) (.node true 3)
     | 5 => .diff (.node true 1) (.node true 2)
-    | 6 => .diff (.node true 3) (.node true 4)
-    | 1 => .lit .tt | 2 => .lit .tt | 3 => .lit .tt | 4 => .lit .tt
+    | 1 => .lit .tt | 2 => .lit .tt
     | _ => .lit .ff
 
-theorem specA_eq : specSys sysA 7 false = specA := by
-  unfold specSys specA sysA
+theorem specB_eq : specSys sysB 7 true = specB := by
+  unfold specSys specB sysB
   congr 1
   funext n
   match n with
   | 0 => simp [proj] | 1 => simp [proj] | 2 => simp [proj] | 3 => simp [proj]
-  | 4 => simp [proj] | 5 => simp [proj] | 6 => simp [proj]
-  | n + 7 => simp [proj]
+  | 4 => simp [proj] | 5 => simp [proj]
+  | n + 6 => simp [proj]
 
-def rkA : Nat → Nat := fun n => if n = 0 then 2 else if n = 5 ∨ n = 6 then 1 else 0
+def rkB : Nat → Nat := fun n => if n = 0 then 2 else if n = 5 then 1 else 0
 
-theorem specA_stratified : Stratified specA rkA := by
+theorem specB_stratified : Stratified specB rkB := by
   intro n m h
   match n, h with
   | 0, h =>
@@ -202,42 +229,38 @@ theorem specA_stratified : Stratified specA rkA := by
     refine ⟨?_, fun hn => ?_⟩
     · rcases occurs_diff_nodes h with rfl | rfl <;> decide
     · rw [occursNeg_diff_nodes hn]; decide
-  | 6, h =>
-    refine ⟨?_, fun hn => ?_⟩
-    · rcases occurs_diff_nodes h with rfl | rfl <;> decide
-    · rw [occursNeg_diff_nodes hn]; decide
   | 1, h => cases h
   | 2, h => cases h
   | 3, h => cases h
   | 4, h => cases h
-  | n + 7, h => cases h
+  | n + 6, h => cases h
 
-/-- the model returns user 7 (first-wins and last-wins alike), noting the unjustified step … -/
-theorem sysA_answer (lw : Bool) :
-    (listUsersF sysA 25 { lastWins := lw } 10 0).users = [7] ∧
-    (listUsersF sysA 25 { lastWins := lw } 10 0).errs = [] ∧
-    (listUsersF sysA 25 { lastWins := lw } 10 0).notes = ["excl-flip"] := by
+/-- the model returns user 7 next to the wildcard, noting the unjustified step … -/
+theorem sysB_answer (lw : Bool) :
+    (listUsersF sysB 25 { lastWins := lw } 10 0).users = [0, 7] ∧
+    (listUsersF sysB 25 { lastWins := lw } 10 0).errs = [] ∧
+    (listUsersF sysB 25 { lastWins := lw } 10 0).notes = ["excl-wild-has"] := by
   cases lw <;> decide
 
 /-- … although 7 does not hold relation 0: it is excluded from `5` by `2`. -/
-theorem specA_not_P0 : ¬ P specA (stratInterp specA rkA) [] 0 := by
-  have e : evalF specA 25 {} noCache 20 0 [] (.node false 0) = .ok false false false := by decide
-  have h := evalF_eval specA 25 {} noCache 20 0 [] (.node false 0)
+theorem specB_not_P0 : ¬ P specB (stratInterp specB rkB) [] 0 := by
+  have e : evalF specB 25 {} noCache 20 0 [] (.node false 0) = .ok false false false := by decide
+  have h := evalF_eval specB 25 {} noCache 20 0 [] (.node false 0)
   rw [e] at h
-  have h2 := (eval_root_sound_stratified specA_stratified (C01.eval_noCache h)).2 rfl
+  have h2 := (eval_root_sound_stratified specB_stratified (C01.eval_noCache h)).2 rfl
   exact fun hp => h2 (.node hp)
 
-/-- **negation witness, soundness** (finding LU-A) -/
+/-- **negation witness, soundness** (finding LU-B) -/
 theorem not_LU_Sound_Full : ¬ LU_Sound_Full := by
   intro hfull
-  have hD := hfull sysA 25 7 false rkA (specA_eq ▸ specA_stratified) 0 _
-    (listUsersF_rel sysA 25 {} 10 0) (sysA_answer true).2.1 (by rw [(sysA_answer true).1]; simp)
-  have hP : P specA (stratInterp specA rkA) [] 0 := by
-    have := D_sub_P (specSys sysA 7 false) (stratInterp (specSys sysA 7 false) rkA)
+  have hD := hfull sysB 25 7 true rkB (specB_eq ▸ specB_stratified) 0 _
+    (listUsersF_rel sysB 25 {} 10 0) (sysB_answer true).2.1 (by rw [(sysB_answer true).1]; simp)
+  have hP : P specB (stratInterp specB rkB) [] 0 := by
+    have := D_sub_P (specSys sysB 7 true) (stratInterp (specSys sysB 7 true) rkB)
       (consistent_stratInterp _ _) [] 0 hD
-    rw [specA_eq] at this
+    rw [specB_eq] at this
     exact this
-  exact specA_not_P0 hP
+  exact specB_not_P0 hP
 
 /-- LU-C.  `0 := [1, 2]` (two directly assigned usersets), `1 := 3 but not 4`, `2 := 3 but not 5`, user 7 in
 3 and 5: the dispatch of `1` reports 7 with, the dispatch of `2` without the relationship, into the same
@@ -331,9 +354,10 @@ theorem not_LU_Complete_Full : ¬ LU_Complete_Full := by
 
 /-! ### the same at the level of the reducers (wildcard bookkeeping) -/
 
-/-- LU-A at `expandExclusion`: base entry and subtracted entry both `NoRelationship` ⇒ `HasRelationship` -/
-theorem f_excl_flip : exclR 0 isW [{ user := 7, status := .no }] [{ user := 7, status := .no }] =
-    [{ user := 7, status := .has }] := by decide
+/-- LU-A fixed, at `expandExclusion`: base entry and subtracted entry both `NoRelationship` ⇒ the base status
+is kept -/
+theorem excl_keeps_base_status : exclR 0 isW [{ user := 7, status := .no }] [{ user := 7, status := .no }] =
+    [{ user := 7, status := .no }] := by decide
 
 /-- LU-B at `expandExclusion`: the base holds the wildcard and lists 7 as `NoRelationship` (7 was excluded
 one level down); 7 is not subtracted ⇒ 7 is re-issued with the zero status `HasRelationship` -/
@@ -484,7 +508,7 @@ theorem tie_expandDirect : Gen.ListUsers.expandDirect =
      "1:userObjectType, userObjectID := tuple.SplitObject(userObject)",
      "1:if userRelation == \"\"",
      "2:range _, f := req.GetUserFilters()",
-     "3:if f.GetType() == userObjectType",
+     "3:if f.GetType() == userObjectType && f.GetRelation() == \"\"",
      "4:user := tuple.StringToUserProto(tuple.BuildObject(userObjectType, userObjectID))",
      "4:send {user: user} -> foundUsersChan",
      "2:continue",
@@ -712,7 +736,7 @@ theorem tie_expandExclusion : Gen.ListUsers.expandExclusion =
      "2:if subtractedUser.relationshipStatus == HasRelationship",
      "3:send {user: tuple.StringToUserProto(userKey); relationshipStatus: NoRelationship} -> foundUsersChan",
      "2:if subtractedUser.relationshipStatus == NoRelationship",
-     "3:send {user: tuple.StringToUserProto(userKey); relationshipStatus: HasRelationship} -> foundUsersChan",
+     "3:send {user: tuple.StringToUserProto(userKey); relationshipStatus: fu.relationshipStatus} -> foundUsersChan",
      "1:default",
      "2:send {user: tuple.StringToUserProto(userKey); relationshipStatus: fu.relationshipStatus} -> foundUsersChan",
      "0:errs := errors.Join(baseError, subtractError)",
